@@ -123,10 +123,10 @@ func VerifC05_Concurrent() {
 	ioc := MustIO()
 	vf.MaxSwitches(vf.Bound("context-switches", 3, 4))
 	vf.RaceCheck(true)
-	nPosters := vf.Bound("posters", 1, 2)
+	nPosters := vf.Bound("posters", 1, 3)
 	perPoster := vf.Bound("posts-per-poster", 2, 2)
-	var ran [2][2]int
-	var order [4]int
+	var ran [3][2]int
+	var order [6]int
 	nran, posted := 0, 0
 	wfd := internal.VerifWakerFd(ioc.poller)
 	for i := 0; i < nPosters; i++ {
